@@ -205,12 +205,21 @@ fn run_sim(seed: u64, idx: u64) -> SimOut {
         sim.client(format!("client{ci}"), async move {
             let t0 = tokio::time::Instant::now();
             let channels: Vec<Channel> = (0..nservers).map(|s| Channel::connect(SocketAddr::new(turmoil::lookup(format!("server{s}")), PORT))).collect();
+            // one configured client per server; requests go through it or - as one does when
+            // handing a client to a spawned task - through a clone of it
+            let bases: Vec<RpcClient<Svc>> = channels
+                .iter()
+                .map(|ch| {
+                    let mut c = RpcClient::<Svc>::new(ch.clone());
+                    if let Some(t) = timeout {
+                        c.set_timeout(Duration::from_millis(t));
+                    }
+                    c
+                })
+                .collect();
             let mut tasks = Vec::new();
             for r in reqs {
-                let mut client = RpcClient::<Svc>::new(channels[r.server].clone());
-                if let Some(t) = timeout {
-                    client.set_timeout(Duration::from_millis(t));
-                }
+                let client = bases[r.server].clone();
                 let out = out.clone();
                 let spans = spans.clone();
                 let req = r.clone();
